@@ -282,12 +282,15 @@ def push_table(ctx, facts, label="PoolInner::push"):
                     scen.append((ws, conn, idle_n, True, have_idle))
     scen.append(((), "conn:exclusive", 0, False, True))
     scen.append(((), "conn:shareable", 1, False, False))
+    # the bound is the configured one, not a constant: the same lists under max_idle_per_host = 2
+    scen2 = [((), conn, idle_n, True, True) for conn in ("conn:shareable", "conn:exclusive") for idle_n in (1, 2)]
     rows = 0
     obs = observe(lay)
-    for (ws, conn, idle_n, have_queue, have_idle) in scen:
-        key = "%s|table|waiters=%s|%s|idle=%s" % (label, ",".join(k for k, _ in ws) or ("-" if have_queue else "no-queue"), conn.split(":")[1], idle_n if have_idle else "no-list")
+    for (ws, conn, idle_n, have_queue, have_idle) in scen + scen2:
+        mx = 2 if (ws, conn, idle_n, have_queue, have_idle) in scen2 and idle_n in (1, 2) and rows >= len(scen) else 1
+        key = "%s|table|waiters=%s|%s|idle=%s%s" % (label, ",".join(k for k, _ in ws) or ("-" if have_queue else "no-queue"), conn.split(":")[1], idle_n if have_idle else "no-list", "|max=2" if mx == 2 else "")
         try:
-            st = initial_state(facts, lay, ws, idle_n, 1, True, have_queue, have_idle)
+            st = initial_state(facts, lay, ws, idle_n, mx, True, have_queue, have_idle)
         except KeyError as e:
             return ctx.missing("%s|waiter-type" % label, str(e))
         st[3] = ("const", conn)
@@ -299,12 +302,12 @@ def push_table(ctx, facts, label="PoolInner::push"):
             continue
         rows += 1
         got = {o[2][0] for o in outs}
-        want = spec_push(ws, conn, idle_n, 1, have_queue, have_idle)
+        want = spec_push(ws, conn, idle_n, mx, have_queue, have_idle)
         ok = got == {want}
         ctx.check(ok, key, "waiters [%s], a %s connection, %s idle: closed waiters are skipped, a shareable connection is cloned to every live waiter and then parked, an exclusive one goes to the first live waiter (the others stay queued) or is parked within the bound; the in-flight marker is cleared"
                   % (", ".join(k for k, _ in ws), conn.split(":")[1], idle_n if have_idle else "no list of"),
                   "the hand-back can end with (deliveries, queue left, idle list, marker still set) = %s; expected %s" % (sorted(map(str, got))[:2], want), u.where())
-    ctx.floor("%s|table-rows" % label, rows, len(scen), "scenarios evaluated")
+    ctx.floor("%s|table-rows" % label, rows, len(scen) + len(scen2), "scenarios evaluated")
 
 
 def spec_cancel(waiters, connecting, have_queue):
